@@ -206,6 +206,14 @@ def run(tier):
         docs = [gen_tag_doc(rng, cfg) for _ in range(ndocs)]
         docs += [b"#id 1", b"#fail 1", b"#failq [1 2]", b"[#_ #fail 1 2]", b"#_ #id 1 #id 2", b"#unk #id 1", b"#id #unk 1", b"#ext #ext 5",
                  b"{#id :a #inst \"x\"}", b"#id", b"[#id]", b"#id #_ 1", b"#my/id #my/id #my/id nil"]
+        # long flat runs of tags (more of them than the nesting limit): handled, unknown, mixed, with collections as operands
+        for n in (50, 98, 99, 100, 101, 150, 400):
+            docs.append(b"[" + b" ".join(b"#u %d" % i for i in range(n)) + b" #id [7]]")
+            docs.append(b"[" + b" ".join(b"#id %d" % i for i in range(n)) + b" #u [7]]")
+            docs.append(b"[" + b" ".join(b"#inst [%d]" % i for i in range(n)) + b"]")
+            docs.append(b"[" + b" ".join(rng.choice([b"#u", b"#id", b"#ext", b"#my/id", b"#v/w"]) + b" {:k %d}" % i for i in range(n)) + b"]")
+        # an unknown tag around handlers that fail or succeed: inner forms are read (and their handlers run) first
+        docs += [b"#nope #fail 1", b"[#id 1 #nope [#id 2 #id 3]]", b"#nope {:a 1}", b"#nope [1 2", b"#nope #failq [#id 1]", b"[#nope #ext 1 #id 2]", b"#nope #nope #id 1"]
         base, _ = K.run_impl(cfg, K.read_lines(docs, 0))
         for mode in (0, 1, 2):
             for reg in (0, 1):
